@@ -345,6 +345,11 @@ def flush_before_return(ctx: Ctx):
         for f in [c for c in calls_in(we.node) if (dotted(c.func) or '') in ('sys.stdout.flush', 'sys.stderr.flush')]:
             any_flush.extend(g.nodes_of(_stmt_of(we, f)))
         no_raise = [(n, t) for n in any_flush for (t, lab) in g.succ[n] if lab == 'exc']
+        # bindings that cannot fail (`current_process = multiprocessing.current_process()`) are not exits either
+        from ..engine import cannot_raise
+        for nd in g.nodes:
+            if nd.kind == 'stmt' and nd.ast is not None and cannot_raise(ctx, we, nd.ast):
+                no_raise.extend((nd.id, t) for (t, lab) in g.succ.get(nd.id, []) if lab == 'exc')
         succs = [t for (t, lab) in g.succ[start] if lab != 'exc']
         ok = all(not (g.reachable([s], avoid=fn_nodes, exc=True, avoid_edges=no_raise) & {g.exit, g.raise_exit}) for s in succs)
         yield ctx.ob('C19.FLUSH-BEFORE-RETURN', ok, we, flushes[0], f'sys.{stream} flushed on every path out of the worker',
@@ -485,7 +490,20 @@ def same_queue(ctx: Ctx):
         # module-level drain(log_queue): every call passes the runner's own queue
         w = ctx.P.find_method(pr, 'wait')
         dcalls = [c for c in calls_in(w.node) if dm.qualname in ctx.P.resolve_call(c, w)]
-        drained = bool(dcalls) and all(c.args and same_expr(c.args[0], ast.parse(f'{w.self_name}.log_queue', mode='eval').body) for c in dcalls)
+        # the parameter of the drain function that is polled, and what each call binds to it (positionally or by keyword)
+        qparams = [c.func.value.id for c in calls_in(dm.node) if isinstance(c.func, ast.Attribute) and c.func.attr in ('get', 'get_nowait')
+                   and isinstance(c.func.value, ast.Name)]
+        plist = [a.arg for a in dm.node.args.posonlyargs + dm.node.args.args]
+        want = ast.parse(f'{w.self_name}.log_queue', mode='eval').body
+
+        def bound(c: ast.Call):
+            if not qparams:
+                return None
+            v = kwarg(c, qparams[0])
+            if v is None and qparams[0] in plist and plist.index(qparams[0]) < len(c.args):
+                v = c.args[plist.index(qparams[0])]
+            return v
+        drained = bool(dcalls) and all(same_expr(bound(c), want) for c in dcalls)
     yield ctx.ob('C19.SAME-QUEUE', ok and drained, st, st.node, 'submit_task passes self.log_queue, which the drain reads', '' if ok and drained else
                  'the queue handed to workers is not the one the runner drains')
     for f in ctx.P.implementations(pr.qualname, '_submit_task'):
@@ -595,6 +613,16 @@ def rel_all(ctx: Ctx):
     g = ctx.cfg(fn)
     rd = ctx.rd(fn)
     kws = {k.arg: k.value for k in r.keywords}
+    # hoisted loop invariants (`task_type = type(task)`, `many = not is_task(param_value)`) are read through
+    _pvn = None
+    _d0 = rd.single_def(g.primary(lp), lp.iter.id) if isinstance(lp.iter, ast.Name) else None
+    _dv0 = rd.def_value(_d0, lp.iter.id) if _d0 is not None else None
+    if _dv0 and _dv0[0] == 'value' and isinstance(_dv0[1], ast.Call) and _dv0[1].args and isinstance(_dv0[1].args[0], ast.Name):
+        _pvn = _dv0[1].args[0].id
+    _stop = [x for x in (outer.target.id if outer is not None and isinstance(outer.target, ast.Name) else None,
+                         outer.iter.args[0].id if outer is not None and isinstance(outer.iter, ast.Call) and outer.iter.args
+                         and isinstance(outer.iter.args[0], ast.Name) else None, sv, _pvn) if x]
+    kws = {k: expand_locals(g, rd, v, g.primary(r), stop=_stop) for k, v in kws.items() if k is not None}
     pv = None
     # param_value = getattr(task, field.name); sub_tasks = find_tasks_in_param(param_value)
     d = rd.single_def(g.primary(lp), lp.iter.id)
@@ -664,7 +692,29 @@ def cardinality(ctx: Ctx):
                             return k.value
                 return node
         ee = _Proj().visit(expand_locals(g, rd, e, g.primary(st), stop=['multi_cardinality']))
-        cases.append((c, fb.build(ee)))
+        # the observed flag may have been re-assigned before the store (`if old is not None: many = old.many or many`):
+        # one case per reaching definition, each under the condition of its assignment
+        defs = rd.reaching(g.primary(st), 'multi_cardinality')
+        non_entry = [d for d in defs if d != g.entry]
+        uses_flag = any(isinstance(x, ast.Name) and x.id == 'multi_cardinality' for x in ast.walk(ee))
+        if non_entry and uses_flag:
+            from ..engine import substitute
+            from ..formula import f_not as _fnot
+            conds = []
+            for d in non_entry:
+                dv = rd.def_value(d, 'multi_cardinality')
+                dst = g.node(d).ast
+                if not dv or dv[0] != 'value' or dst is None:
+                    continue
+                cd = cond_from_entry(ctx, fn, dst)
+                val = expand_locals(g, rd, dv[1], d, stop=['multi_cardinality'])
+                e_d = _Proj().visit(substitute(ee, {'multi_cardinality': val}))
+                cases.append((f_and(c, cd), fb.build(e_d)))
+                conds.append(cd)
+            if g.entry in defs:
+                cases.append((f_and(c, _fnot(f_or(*conds))), fb.build(ee)))
+        else:
+            cases.append((c, fb.build(ee)))
     # atoms: presence of the key (`key in rels`, or `rels.get(key)` / old info not None), the old flag, the new flag
     allat = set()
     for c, f in cases:
